@@ -334,35 +334,41 @@ def check_mask_table(chk, u, rule):
 
 
 def check_fan_loop(chk, f, field, mname, kind):
-    b = f.body
+    from props.common import iteration_context
+
     where = f.path
-    its = [c for c in nonforeign_calls(f) if c.is_("IntoIterator::into_iter") and c.fn is f]
-    if len(its) != 1:
-        return chk.ob("C13.e", where, False, f"expected one plain `for` loop over self.{field}, found {len(its)} iterations", f.loc())
-    src = strip_sym(arg_syms(its[0])[0])
-    if not (src[0] == "field" and src[2] == field and is_param(src[1], 0)):
-        return chk.ob("C13.e", where, False, f"the loop iterates {sym_str(src)[:100]}, not the whole self.{field} (take/skip/filter/first would drop recorders)", its[0].loc())
-    skip = [r for r in b.return_blocks() if r in b.reachable(0, cut={its[0].bb})]
-    if skip:
-        return chk.ob("C13.e", where, False, "a return is reachable without entering the loop (early exit for some value: that update reaches no recorder)", f.loc())
     if kind is not None:
         inner = [c for c in nonforeign_calls(f) if c.is_(f"handles::{kind}::{mname}")]
     else:
         inner = [c for c in nonforeign_calls(f) if (c.t.get("trait") or "").endswith("recorder::Recorder")]
-    if len(inner) != 1 or not in_cycle(b, inner[0].bb):
-        return chk.ob("C13.e", where, False, f"expected exactly one call of the inner {mname} per element inside the loop", f.loc())
-    if kind is None and callee_method_name(inner[0]) != mname:
-        return chk.ob("C13.e", where, False, f"loop calls {callee_method_name(inner[0])}, expected {mname}", inner[0].loc())
-    # loop exits only when the iterator is exhausted: every break out of the cycle goes through next() == None
-    nxt = [c for c in nonforeign_calls(f) if c.is_("Iterator::next") and c.fn is f]
-    cyc = {x for x in range(b.n) if x in b.reachable_after(x) and inner[0].bb in b.reachable(x)}
-    exits = [(x, s) for x in cyc for s in b.succ(x) if s not in cyc and s in b.reachable(0) and b.term(s)["k"] != "unreachable"]
-    ok_exit = len(nxt) == 1 and all(any(lab == "None" and sym_is_call(d, "Iterator::next") for d, lab in gates(b, s)) for x, s in exits)
-    if not ok_exit:
-        return chk.ob("C13.e", where, False, "the loop can be left before the iterator is exhausted (break/return inside the loop)", f.loc())
-    a = arg_syms(inner[0])
+    if len(inner) != 1:
+        return chk.ob("C13.e", where, False, f"expected exactly one call site of the inner {mname} (one per element of self.{field}), found {len(inner)}", f.loc())
+    c = inner[0]
+    if kind is None and callee_method_name(c) != mname:
+        return chk.ob("C13.e", where, False, f"the fan-out calls {callee_method_name(c)}, expected {mname}", c.loc())
+    src, why = iteration_context(c)
+    if src is None:
+        return chk.ob("C13.e", where, False, f"the inner {mname} is not applied once to every element of self.{field}: {why}", c.loc())
+    src = strip_sym(src)
+    if not (src[0] == "field" and src[2] == field and is_param(sym_through(src[1]), 0)):
+        return chk.ob("C13.e", where, False, f"the fan-out iterates {sym_str(src)[:100]}, not the whole self.{field} (take/skip/filter/first would drop recorders)", c.loc())
+    # the iteration itself is reached on every path through the method
+    b = f.body
+    anchor = c.bb if c.fn is f else None
+    if anchor is None:
+        for cc in b.calls():
+            if cc.is_("Iterator::for_each"):
+                anchor = cc.bb
+    skip = [r for r in b.return_blocks() if anchor is not None and r in b.reachable(0, cut={anchor})]
+    if anchor is None or (skip and c.fn is not f):
+        return chk.ob("C13.e", where, False, "a return is reachable without running the fan-out (early exit for some value: that update reaches no recorder)", f.loc())
+    if c.fn is f:
+        its = [x for x in b.calls() if x.is_("IntoIterator::into_iter") and not x.foreign()]
+        if any(r in b.reachable(0, cut={x.bb for x in its}) for r in b.return_blocks()):
+            return chk.ob("C13.e", where, False, "a return is reachable without entering the loop (early exit for some value: that update reaches no recorder)", f.loc())
+    a = arg_syms(c)
     vals_ok = all(is_param(sym_through(a[i], "Clone::clone"), i) for i in range(1, len(a)))
-    return chk.ob("C13.e", where, vals_ok, f"for each of self.{field}: {mname}(value) — whole vector, once each, value unchanged" if vals_ok else f"the per-element call alters its arguments: {[sym_str(x)[:40] for x in a[1:]]}", inner[0].loc())
+    return chk.ob("C13.e", where, vals_ok, f"for each of self.{field}: {mname}(value) — whole vector, once each, value unchanged" if vals_ok else f"the per-element call alters its arguments: {[sym_str(x)[:40] for x in a[1:]]}", c.loc())
 
 
 def run_config(ctx):
